@@ -109,6 +109,9 @@ func (c *checker) handleOne(mh *ucon.MessageHandler, data []byte, ctx int, what 
 
 func (c *checker) hmPayloadSeeds() map[uint8][][]byte {
 	seeds := map[uint8][][]byte{}
+	for _, n := range []string{"ucon.ConsensusCommon", "ucon.BlockHashWithVotes", "types.Block"} {
+		c.ensureSeeds(c.byName[n])
+	}
 	seeds[1] = c.byName["ucon.ConsensusCommon"].seeds
 	for _, code := range []uint8{3, 4, 5, 6} {
 		seeds[code] = c.byName["ucon.BlockHashWithVotes"].seeds
